@@ -23,6 +23,17 @@ def make_cases(ctx, n_general, n_table, n_pal, n_multi):
     for _ in range(max(20, n_table // 3)):
         img, fr, kind = pl.gen_fast_lossless_image(ctx.rng)
         cases.append((kind, img, fr))
+    # the specialised decoders (single gradient leaf, gradient / simple / previous-channel lookup tables,
+    # the RLE fast path) on samples that span the whole 31-bit range with hard edges: W + N - NW leaves
+    # 32 bits there, which the general path computes in 64 (seeded: c03-i32-grad-clamped-wraps)
+    for k in range(max(16, n_table // 4)):
+        b = ctx.rng.choice([24, 30, 31, 31])
+        st = ["edges", "edges", "noise", "stripes"]
+        if k % 2:
+            img, fr, kind = pl.gen_fast_lossless_image(ctx.rng, bits=b, styles=st)
+        else:
+            img, fr, kind = pl.gen_table_image(ctx.rng, kind=ctx.rng.choice(["gradient-table", "gradient-table", "simple-table", "prevchan-table", "mixed-table"]), bits=b, styles=st)
+        cases.append(("deep-" + kind, img, fr))
     for _ in range(n_multi):
         img, fr = pl.gen_modular_image(ctx.rng, {"multi_group": True})
         cases.append(("multi-group", img, fr))
